@@ -9,7 +9,7 @@ _MAIN = {
 _RACE = {
     "pkg": ".", "hdir": "dastard", "harness": DASTARD_COMMON + ["zz_verif_trig_test.go", "zz_verif_c08_test.go", "zz_verif_raceprobe_test.go"], "test": "TestVerifC08Race",
     "engines": ["vexp", "vhook"], "runtime_patch": True, "race": True, "gomaxprocs": 4,
-    "quick": T(16, 60), "thorough": T(16, 300),
+    "quick": T(16, 90), "thorough": T(16, 300),
 }
 ENTRY = {
     "C08": dict(_MAIN, **{
